@@ -54,7 +54,9 @@ RULE = ('seeded rotationally symmetric lenses (planes, spheres, conics, a share 
         'object-height fields; 2-3 y fields, 1-3 wavelengths, apertures, coatings, vignetting factors); every analysis at the lens\'s own '
         'lists and at explicit wavelength lists with / without the primary wavelength; distributions hexapolar, uniform, cross, line, random; '
         'both distortion types, odd and even grids; non-trivial = lens on which every analysis produced finite, non-constant output. '
-        'About a third of the lenses have a curved image surface; every query is repeated and .data re-read after the radius queries.')
+        'About a third of the refracting lenses have a curved image surface; every query is repeated and .data re-read after the radius queries. '
+        'Lens classes: refracting, single mirror, three mirrors, lens + mirror (odd mirror counts: light reaches the image travelling to -z, image '
+        'defocused from both astigmatic foci); field-list classes: ascending, reordered, all negative, largest magnitude negative, mixed.')
 PARTIAL = ['Coddington agreement of the field-curvature data is checked numerically (independent trace), the theorem covers the finite-delta crossing algebra',
            'blocked rays (intensity 0) are counted in centroid / RMS / geometric radius exactly as the implementation does (documented behaviour); '
            'failed rays (NaN) are ignored (theorems C12_nanmean_skip / C12_centroid_ignores_failed_ray hold for every arithmetic instance)',
@@ -294,10 +296,28 @@ Definition fan_xy (l : list (list (fan FOps))) : list float :=
 ''' % TOL
 
 
-def _lens(ctx, salt, k, **kw):
+# every class of lens / field list appears in the first dozen lenses of a sweep; later lenses cycle through the products
+CLASS_PLAN = [('refracting', 'ascending'), ('mirror1', 'largest_negative'), ('refracting', 'all_negative'),
+              ('refracting', 'reordered'), ('mirror3', 'ascending'), ('refracting', 'largest_negative'),
+              ('catadioptric1', 'all_negative'), ('refracting', 'mixed_largest_positive'), ('refracting', 'ascending'),
+              ('mirror1', 'reordered'), ('refracting', 'all_negative'), ('mirror3', 'largest_negative')]
+
+
+def _classes(k):
+    import c12_impl as C
+    if k < len(CLASS_PLAN):
+        return CLASS_PLAN[k]
+    j = k - len(CLASS_PLAN)
+    lc = ('refracting', 'refracting', 'mirror1', 'refracting', 'mirror3', 'refracting', 'catadioptric1')[j % 7]
+    return lc, C.FIELD_CLASSES[(j // 7 + j) % len(C.FIELD_CLASSES)]
+
+
+def _lens(ctx, salt, k, planned=False, **kw):
     import lensgen
     import c12_impl as C
     rng = random.Random(ctx.seed * 7919 + salt * 101 + k)
+    if planned:
+        kw['lens_class'], kw['field_class'] = _classes(k)
     spec = C.c12_spec(rng, **kw)
     try:
         o = C.build(spec)
@@ -319,7 +339,7 @@ def _model_cases(ctx, nl):
     bodies, labels = [], []
     hist = {'lenses': 0, 'build_failures': 0, 'impl_raises': {}, 'field_types': {}, 'checks': {}}
     for k in range(nl):
-        o, spec, rng = _lens(ctx, 1, k)
+        o, spec, rng = _lens(ctx, 1, k, planned=True)
         if o is None:
             hist['build_failures'] += 1
             continue
@@ -573,12 +593,14 @@ def _oracle_sweep(ctx, nl, salt=3, level=1, stop_after=None):
     viol, hist = [], {'lenses': 0, 'build_failures': 0, 'analyses': 0, 'coddington_samples': 0, 'field_types': {}, 'violations_by_kind': {}}
     clean = 0
     for k in range(nl):
-        o, spec, rng = _lens(ctx, salt, k)
+        o, spec, rng = _lens(ctx, salt, k, planned=True)
         if o is None:
             hist['build_failures'] += 1
             continue
         hist['lenses'] += 1
         hist['field_types'][spec['field_type']] = hist['field_types'].get(spec['field_type'], 0) + 1
+        ck = spec.get('lens_class', '?') + '/' + spec.get('field_class', '?')
+        hist.setdefault('classes', {})[ck] = hist.get('classes', {}).get(ck, 0) + 1
         res, cnt = C.oracle_lens(o, spec, rng, level=level)
         hist['analyses'] += sum(v for kk, v in cnt.items() if kk != 'coddington_samples')
         hist['coddington_samples'] += cnt.get('coddington_samples', 0)
@@ -617,13 +639,25 @@ def _dedupe(viol, known=None):
 
 
 def system_checks(ctx):
+    import traceback
     import vlib
     imports = 'From OV Require Import Num.OpsC12 Gen.Analysis Model.M_C12.'
-    # (a) hand model on independently traced rays vs the analyses
-    bodies, labels, hist = _model_cases(ctx, ctx.n(5, 60))
-    res = {'name': 'analysis-models-vs-implementation', 'n': 0, 'nontrivial': hist['lenses'], 'histogram': hist,
-           'samples': [], 'disagreements': []}
+    # (c) FIRST: the property stated directly on the implementation (independent recomputation incl. Coddington); it does not
+    # need the Coq side, so its verdict is reported even when a proof or the model no longer builds
     try:
+        viol, hist = _oracle_sweep(ctx, ctx.n(12, 150), level=0 if ctx.quick() else 1)
+        known = vlib.load_known_findings(PROP)
+        yield {'name': 'independent-recomputation-oracle', 'n': hist['analyses'], 'nontrivial': hist['clean_lenses'] + len(viol),
+               'histogram': hist, 'samples': [{'coddington_samples_compared': hist['coddington_samples']}],
+               'disagreements': _order(_dedupe(viol, known), known)}
+    except Exception:   # noqa
+        yield {'name': 'independent-recomputation-oracle', 'n': 0, 'nontrivial': 0, 'samples': [], 'disagreements': [],
+               'error': traceback.format_exc()[-800:]}
+    # (a) hand model on independently traced rays vs the analyses
+    res = {'name': 'analysis-models-vs-implementation', 'n': 0, 'nontrivial': 0, 'samples': [], 'disagreements': []}
+    try:
+        bodies, labels, hist = _model_cases(ctx, ctx.n(5, 60))
+        res.update({'nontrivial': hist['lenses'], 'histogram': hist})
         n, bad = _run_bodies('C12model', imports, HELPERS, bodies, labels)
         res['n'] = n
         for b in bad:
@@ -633,24 +667,28 @@ def system_checks(ctx):
             res['samples'].append({'lens_checks': [l['check'] for l in labels[0]][:12]})
     except RuntimeError as e:
         res['error'] = str(e)
+    except Exception:   # noqa
+        res['error'] = traceback.format_exc()[-800:]
     yield res
     # (b) Coq trace model composed with the spot model
-    bodies, labels = _trace_spot_cases(ctx, ctx.n(3, 40))
-    res = {'name': 'trace-model+spot-model-vs-SpotDiagram', 'n': 0, 'nontrivial': len(bodies), 'samples': [], 'disagreements': []}
+    res = {'name': 'trace-model+spot-model-vs-SpotDiagram', 'n': 0, 'nontrivial': 0, 'samples': [], 'disagreements': []}
     try:
+        bodies, labels = _trace_spot_cases(ctx, ctx.n(3, 40))
+        res['nontrivial'] = len(bodies)
         n, bad = _run_bodies('C12trace', 'From OV Require Import Num.OpsC12 Gen.Analysis Model.M_C12 Model.Trace.', HELPERS + TRACE_HELPERS, bodies, labels)
         res['n'] = n
         for b in bad:
             res['disagreements'].append({'check': b.get('check'), 'lens': b.get('lens'), 'spec': b.get('spec'), 'violates_property': False})
     except RuntimeError as e:
         res['error'] = str(e)
+    except Exception:   # noqa
+        res['error'] = traceback.format_exc()[-800:]
     yield res
-    # (c) the property stated directly on the implementation (independent recomputation incl. Coddington)
-    viol, hist = _oracle_sweep(ctx, ctx.n(12, 150), level=0 if ctx.quick() else 1)
-    known = vlib.load_known_findings(PROP)
-    yield {'name': 'independent-recomputation-oracle', 'n': hist['analyses'], 'nontrivial': hist['clean_lenses'] + len(viol),
-           'histogram': hist, 'samples': [{'coddington_samples_compared': hist['coddington_samples']}],
-           'disagreements': [_slim(w) for w in _dedupe(viol, known)]}
+
+
+def _order(ws, known):
+    """unlisted witnesses first (the driver alarms on the first unlisted one)"""
+    return sorted(ws, key=lambda w: any(matches_finding(w, f) for f in known))
 
 
 def _slim(w):
@@ -658,15 +696,17 @@ def _slim(w):
 
 
 def search(ctx, broken, disagreements):
-    """the property as an oracle on the implementation (independent traces + direct recomputation), seeded sweep;
-    listed findings are skipped so that a new violation is what gets reported"""
+    """the property as an oracle on the implementation (independent traces + direct recomputation, Coddington incl. mirror
+    systems), seeded sweep over every class of lens (refracting, 1 and 3 mirrors, lens + mirror) and of field list
+    (ascending, reordered, all negative, largest magnitude negative, mixed).  Returns a list, unlisted witnesses first."""
     import vlib
     known = vlib.load_known_findings(PROP)
-    viol, hist = _oracle_sweep(ctx, ctx.n(24, 200), salt=5, level=1)
-    fresh = [w for w in viol if not any(matches_finding(w, f) for f in known)]
-    ctx.notes.append(f'search: {hist["lenses"]} lenses, {hist["analyses"]} analyses, {len(viol)} violations, {len(fresh)} not listed')
-    if fresh:
-        return _dedupe(fresh)[:3]
+    viol, hist = _oracle_sweep(ctx, ctx.n(28, 200), salt=5, level=1)
+    ws = _order(_dedupe(viol, known), known)
+    fresh = [w for w in ws if not any(matches_finding(w, f) for f in known)]
+    ctx.notes.append(f'search: {hist["lenses"]} lenses {hist.get("classes")}, {hist["analyses"]} analyses, {len(viol)} violations, {len(fresh)} not listed')
+    if ws:
+        return (fresh[:3] + [w for w in ws if w not in fresh][:2]) or None
     return None
 
 
